@@ -329,6 +329,13 @@ pub fn dp_handler(a: &[&str]) -> String {
     if !ok { return with_oracle(format!("capped:{}", total), Err(format!("output exceeds {} bytes (bound {})", CAP, bound))) }
     let mut verdict = Ok(());
     if text.len() > bound { verdict = Err(format!("output length {} > {} * {} + {}", text.len(), DP_A, inp.len(), DP_B)) }
+    // the notation does not depend on formatter flags the caller happens to pass (width, fill, sign, precision, alternate)
+    if verdict.is_ok() && inp.len() <= 64 {
+        let d = || minicbor::display(&inp);
+        for (spec, alt) in [("{:>9}", format!("{:>9}", d())), ("{:+.1}", format!("{:+.1}", d())), ("{:<07}", format!("{:<07}", d())), ("{:#}", format!("{:#}", d()))] {
+            if alt != text { verdict = Err(format!("with the format spec {} the output is different from the plain one", spec)); break }
+        }
+    }
     // bounded: a tokenizer that does not end would otherwise exhaust memory (the oracle flags > 1 token per byte)
     let items: Vec<Result<Token, decode::Error>> = Tokenizer::new(&inp).take(inp.len() + 2).collect();
     match normalise(text.as_bytes(), &items) {
